@@ -279,9 +279,10 @@ class AWQPackedTensor(torch.Tensor):
 
     @classmethod
     def __torch_dispatch__(cls, op, types, args, kwargs=None):
-        # Convert back to tensor before calling any operation except detach and move
-        if op.overloadpacket is torch.ops.aten.detach:
+        # Convert back to tensor before calling any operation except detach, clone and move
+        if op.overloadpacket in (torch.ops.aten.detach, torch.ops.aten.clone):
             t = args[0]
+            # (the memory format of a clone describes the unpacked tensor, not its packed data)
             data = op(t._data)
             return AWQPackedTensor(data, t._packing, t._reorder, t.size(), t.stride())
         elif op.overloadpacket in (torch.ops.aten._to_copy, torch.ops.aten.to):
